@@ -26,12 +26,22 @@ CLAIMED = {
         "Exploration: random interleavings of bridge calls, controller/token-level ERC20 calls by pkscripts, signers and a contract, adversarial owner-only calls, several ticker spellings and extreme amounts, across mining/commits/reorgs; balances, supply conservation and deposit/withdraw outcomes are compared with an independent ledger.", "3/C07"),
     "C08": C("model-based testing: reference pending-pool model; bounded-exhaustive arrival orders (small scope) + random sequences",
         "Exhaustive over a small scope (every arrival sequence of up to 3-4 signed transactions of one signer over nonces 0..3 x block-gap patterns {0,1,9,10,11}) and random sequences (3 signers, reorgs, clears, garbage, wrong chain): returned receipts, indexes, txpool_content(+From), account nonces and on-chain nonce order are compared with a reference pool model after every call.", "3/C08"),
+    "C10": C("metamorphic property-based testing: generated read requests inserted into a generated history; before/after observation equality, read-free twin, raw RocksDB dump comparison",
+        "Exploration: eth_call / eth_callMany (chained, with overrides) / eth_estimateGas(Many) / brc20_balance with state-mutating generated code and the whole query surface (also mid-block) are inserted at generated positions; the observation before == after every read, all indexer responses, the final observation and the raw contents of every store after commit equal the read-free twin.", "3/C10"),
     "C13": C("model-based testing of the storage components: bounded-exhaustive BFS over one history + random op sequences on real tables vs an in-memory versioned map",
         "Bounded-exhaustive: all op sequences up to length 8 (quick) / 11 (thorough) over {set a, set b, unset, advance 1/9/10/11, rollback 0..11} on one BlockHistoryCacheData, from 5 start states, states merged; plus random sequences on real BlockCachedDatabase tables (two key types) and a BlockDatabase on tmpfs with commit/discard/reopen/rollback/range scans against a durable+volatile model; persisted rows are read back for the 11-version bound.", "3/C13"),
     "C14": C("property-based round-trip / algebraic-law testing of the codecs (encode-decode, concatenation, key order, JSON stability)",
         "Exploration: pairs of generated values of every persisted/served type: lossless round trip with exact consumption, self-delimitation under concatenation, order preservation for numeric and composite keys, JSON text stability.", "3/C14"),
     "C15": C("property-based round-trip + boundedness testing of the payload decoder; twin differential for hex vs base64 submission",
         "Exploration: payloads of all shapes and sizes up to and beyond the limit through the published encoder and hand packers, bombs, arbitrary text; decode == original, never more than the limit, never a panic; generated histories submitted through the hex field vs the base64 field on twins must give identical responses and state.", "3/C15"),
+    "C16": C("property-based testing with a closed estimate loop: eth_estimateGas -> transaction sized by the estimate -> success with the simulated output; allowance and failed-transaction invariants",
+        "Exploration: probes into generated call-free contracts and creations with reported inscription lengths from {0,1,2,need-1,need,need+1,10*need,2^40,2^64-1}: tx.gas = min(len*12000,2^64-1), gasUsed <= allowance, failed transactions leave code/storage/other nonces/pool unchanged, lengths >= need succeed with the simulated output.", "3/C16"),
+    "C17": C("differential property-based testing: eth_call vs the same call executed as the next transaction, on generated chain states",
+        "Exploration: calls and creations (incl. CREATE/CREATE2 factories returning child addresses, NUMBER/BLOCKHASH readers) by pkscripts and signers are simulated with eth_call and then executed as brc20_call/deploy/transact with the simulation's gas allowance; success flag, return/revert data and installed code must agree.", "3/C17"),
+    "C18": C("model-based property testing: reference log filter over collected receipts vs eth_getLogs on generated histories and generated filters",
+        "Exploration: histories with 0-4-topic logs (committed and uncommitted, reverted emissions, reorgs) x generated filters (all range forms, address, positional topics with wildcard/value/alternatives); result compared as an ordered list with a reference filter; too-wide ranges must be refused.", "3/C18"),
+    "C19": C("property-based testing with a probe contract: every context opcode and the txid helper recorded in storage and compared with what the harness supplied, on two network configurations",
+        "Exploration: generated histories (inscription, signed, parked-then-drained calls, deploy constructors, explicit and server-generated hashes, 250+ mined blocks, commits, reorgs) on regtest (Prague everywhere) and signet (Cancun at low heights, in separately configured worker processes).", "3/C19"),
 }
 
 NOT_YET = {}
